@@ -646,7 +646,7 @@ func runAlloc(c *Ctx) {
 	c.SetCases("From Verif Require Import Base Alloc AllocRun.", "AllocRun.mismatches")
 	if os.Getenv("VERIF_PHASE") == "conc" {
 		// concurrent phase only (run under the race detector by ./check)
-		runAllocConcurrent(c, c.Scale(3000, 40000))
+		runAllocConcurrent(c, c.Scale(3000, 15000))
 		c.Extra["rule"] = "concurrent rounds of Allocate/Free from 8 goroutines under the race detector"
 		return
 	}
